@@ -489,6 +489,20 @@ func genC15(g *G, n int, out io.Writer) {
 					break
 				}
 			}
+		} else if i%10 == 7 {
+			// directed: datatype constraints over every datatype the generator knows (the four the policy checks by kind, the sized
+			// integer types, others), on a graph whose values are numbers, strings and booleans - what a datatype IRI means does not
+			// depend on the alias it is written with
+			customSteps = false
+			base = C01Case{Op: "c15", Id: i, Stream: "graph"}
+			dts := []string{"long", "int", "short", "byte", "integer", "float", "double", "string", "boolean", "anyURI"}
+			off := g.n(len(dts))
+			for k := 0; k < 3; k++ {
+				base.Atoms = append(base.Atoms, Atom{Kind: "datatype", Path: PP(fmt.Sprintf("p%d", k), false), Dt: "http://www.w3.org/2001/XMLSchema#" + dts[(off+k)%len(dts)]})
+			}
+			base.Validations = []Validation{{Name: "v0", Class: NS + "T", Rule: Rule{Atom: ip(0)}}, {Name: "v1", Class: NS + "T", Rule: Rule{Or: []Rule{{Atom: ip(1)}, {Not: &Rule{Atom: ip(2)}}}}},
+				{Name: "v2", Class: NS + "U", Rule: Rule{Not: &Rule{Atom: ip(0)}}}, {Name: "v3", Class: NS + "U", Rule: Rule{And: []Rule{{Atom: ip(1)}, {Atom: ip(2)}}}}}
+			base.Graph = g.graph(4+g.n(4), 0.3)
 		} else if i%2 == 0 {
 			// propositional skeleton over classical atoms, whole truth table (deeper and wider formulas)
 			base = genC01TruthTable(g, i)
